@@ -262,6 +262,30 @@ def rule_r5(repo, run):
                   "itself", wl.loc(a))
     if not conv:
         raise AnalysisError("C18.R5: c_to_cxx conversion of do_function not found")
+    # every C++ function (constructors included: they return the new object) contributes one result
+    lf = wl.func("LuaFunction.__init__")
+    incs = pat.find(lf, "if subprogram == 'function':\n    self.nresults += 1")
+    run.check(R, "wrapl.LuaFunction.__init__:function-result", len(incs) == 1 and not incs[0][0].orelse,
+              "the result of a function must be counted under the plain test `subprogram == 'function'`; with a further "
+              "condition (e.g. excluding constructors) the wrapper pushes the value but reports 0 results, so Lua sees nil",
+              wl.loc(lf))
+    # the scope through which Lua calls a namespace member is set wherever the C++ and Python ones are
+    am = repo.module("ast")
+    nsib = 0
+    for q, fn in sorted(am.functions().items()):
+        if not q.endswith(".default_format"):
+            continue
+        calls = {}
+        for a in ast.walk(fn):
+            if isinstance(a, ast.Assign) and isinstance(a.targets[0], ast.Attribute) and a.targets[0].attr.endswith("_this_call"):
+                calls[a.targets[0].attr] = (am.seg(a.value), [(str(am.seg(t)), pol) for t, pol in pyflow.dominating_tests(a, stop=fn)])
+        if "CXX_this_call" in calls and "LUA_this_call" in calls:
+            nsib += 1
+            run.check(R, "ast.%s:LUA_this_call" % q, calls["LUA_this_call"] == calls["CXX_this_call"],
+                      "LUA_this_call is set to %s under %s but CXX_this_call to %s under %s: the Lua wrapper calls functions of "
+                      "this scope without (or with another) qualification" % (calls["LUA_this_call"] + calls["CXX_this_call"]),
+                      am.loc(fn))
+    run.floor(R, "default_format methods setting both scopes", nsib, 1)
 
 
 def run(repo, run, tier):
